@@ -121,6 +121,11 @@ def part_trl(ctx, rec, exe, drv, ntrl, ntie, wb=None):
         for k in range(ntrl):
             sc = G.build_trl(ctx.rng, "trl_%s_%d" % (typ, k), typ, nf=2, gfrac=0.6, swap=(k % 2 == 1))
             scs.append(sc)
+        for k, scale in enumerate((0.05, 0.02)):
+            # the same instances seen through 26 / 34 dB of loss in each tracking term: raw signal-path
+            # measurements of 1e-3 .. 1e-4 (the solver's only absolute threshold is |a| >= 1e-8)
+            sc = G.build_trl(ctx.rng, "trlsmall_%s_%d" % (typ, k), typ, nf=2, gfrac=0.6, swap=True, tracking_scale=scale)
+            scs.append(sc)
         for k in range(ntie):
             # measurements and guesses on a 2^-22 grid: the model is evaluated exactly on the same numbers
             sc = G.build_trl(ctx.rng, "trltie_%s_%d" % (typ, k), typ, nf=1, gfrac=0.6, swap=(k % 2 == 1), quant=22)
@@ -849,7 +854,13 @@ def part_guard(ctx, rec, wb, drv, nextra):
            G.build_trl_like_single(rng, "g_trl_like", "UE10"),
            G.build_trl_partial(rng, "g_partial", "T8", "single2_double_through", (0, 1, 2)),
            G.build_trl(rng, "g_trl", "U8", nf=2),
-           G.build_trl_shaped(rng, "g_line2", "T8", "line_two_unknowns")]    # different unknowns in S12 and S21
+           G.build_trl_shaped(rng, "g_line2", "T8", "line_two_unknowns"),    # different unknowns in S12 and S21
+           # measurement matrix not square: the S matrices are still ports x ports
+           G.build_rectangular_unknowns(rng, "g_rect_U8_2x1", "U8", 2, 1),
+           G.build_rectangular_unknowns(rng, "g_rect_T8_1x2", "T8", 1, 2),
+           G.build_rectangular_unknowns(rng, "g_rect_E12_2x1", "E12", 2, 1),
+           G.build_rectangular_unknowns(rng, "g_rect_UE10_2x1", "UE10", 2, 1),
+           G.build_rectangular_unknowns(rng, "g_rect_TE10_1x2", "TE10", 1, 2)]
     for k in range(nextra):
         typ = rng.choice(G.TYPES)
         n = rng.choice([1, 2]) if typ in ("T16", "U16") else rng.choice([1, 2, 3])
